@@ -407,6 +407,49 @@ func c20Run(f []string) string {
 			return fmt.Sprintf("ok rows=%s row=%d vis=%s", t.rowsOut(height), t.row, b01(t.vis))
 		}
 		return fmt.Sprintf("ok b=%s rows=%s row=%d vis=%s", Hex(out), t.rowsOut(height), t.row, b01(t.vis))
+	case "same":
+		// the live writer and the buffered writer on the same history: do they leave the same screen?
+		width, _ := strconv.Atoi(f[1])
+		h := c20ParseHist(f[3])
+		multiterm.VerifSetTermSize(24, width)
+		multiterm.VerifSetAutoTrim(f[2] == "1")
+		panicked := false
+		buf := c20Capture(func() {
+			defer func() {
+				if recover() != nil {
+					panicked = true
+				}
+			}()
+			b := multiterm.NewBufferedTerm()
+			for _, it := range h {
+				if it.close {
+					b.Close()
+				} else {
+					b.WriteForLine(it.line, it.text)
+				}
+			}
+			b.Close()
+		})
+		if panicked {
+			return "panic"
+		}
+		live := c20Capture(func() {
+			tw := multiterm.New()
+			for _, it := range h {
+				if it.close {
+					tw.Close()
+				} else {
+					tw.WriteForLine(it.line, it.text)
+				}
+			}
+			tw.Close()
+		})
+		height := c20MaxLine(h) + 3
+		t1, t2 := newVT(width, height, true), newVT(width, height, true)
+		t1.feed(live)
+		t2.feed(buf)
+		same := t1.rowsOut(height) == t2.rowsOut(height) && t1.row == t2.row && t1.col == t2.col && t1.vis == t2.vis
+		return fmt.Sprintf("ok same=%s live=%d,%d,%s buf=%d,%d,%s", b01(same), t1.row, t1.col, b01(t1.vis), t2.row, t2.col, b01(t2.vis))
 	case "trim":
 		width, _ := strconv.Atoi(f[1])
 		multiterm.VerifSetTermSize(24, width)
@@ -711,7 +754,11 @@ func c20Gen(r *Rand, tier string) []string {
 		case k < 17:
 			out = append(out, fmt.Sprintf("vterm %s", c20Hist(r, width, true, bad, true)))
 		default:
-			out = append(out, fmt.Sprintf("bterm %d %d %s", width, tb, c20Hist(r, width, trim, bad, bad && r.Chance(1, 2))))
+			if r.Chance(1, 3) {
+				out = append(out, fmt.Sprintf("same %d %d %s", width, tb, c20Hist(r, width, trim, bad, false)))
+			} else {
+				out = append(out, fmt.Sprintf("bterm %d %d %s", width, tb, c20Hist(r, width, trim, bad, bad && r.Chance(1, 2))))
+			}
 		}
 	}
 	if tier == "thorough" {
@@ -740,7 +787,7 @@ func c20Gen(r *Rand, tier string) []string {
 			if len(items) > 0 {
 				hs = strings.Join(items, ",")
 			}
-			out = append(out, "term 3 1 "+hs, "term 3 0 "+hs, "bterm 3 1 "+hs, "termh 3 3 1 1 "+hs, "termh 3 2 0 1 "+hs)
+			out = append(out, "term 3 1 "+hs, "term 3 0 "+hs, "bterm 3 1 "+hs, "termh 3 3 1 1 "+hs, "termh 3 2 0 1 "+hs, "same 3 1 "+hs)
 			if len(items) < 3 {
 				for _, l := range lines {
 					for _, t := range texts {
@@ -777,7 +824,7 @@ func c20Stats(cases []string) map[string]int {
 			continue
 		case "vtermf":
 			hs = f[1]
-		case "term", "bterm", "termf":
+		case "term", "bterm", "termf", "same":
 			hs = f[3]
 			st[f[0]+".trim"+f[2]]++
 		case "termh":
